@@ -249,6 +249,45 @@ class Gate:
                 return True, self.validator_role(r[1])      # `.. ; board.x_is_valid()` as the tail expression
         return False, None
 
+    def path_fails(self, name, p):
+        """path p of stage `name` reports failure by itself (Err / None / false)"""
+        if p.end != "return" or p.ret is None:
+            return False
+        k = self.ret_kind(name)
+        r = p.ret
+        if k == "result":
+            return r[0] == "agg" and r[2] == "Err"
+        if k == "option":
+            return r[0] == "agg" and r[2] == "None"
+        if k == "bool":
+            return r == sym.FALSE
+        return False
+
+    def inline_stages(self, name):
+        """clock fields a constructor fills in its own body: {(fn, bb) of the text-parsing call: role}, read off its
+        Ok paths (the parsed value flows into an assignment of the half-move or full-move field)"""
+        key = ("inline", name)
+        if key in self._stage:
+            return self._stage[key]
+        self._stage[key] = {}
+        b, paths = self.ok_paths(name)
+        out = {}
+        for p in paths:
+            if p.end != "return" or p.ret is None or not (p.ret[0] == "agg" and p.ret[2] == "Ok"):
+                continue
+            for e in p.events:
+                if e.kind != "assign" or e.depth != 0:
+                    continue
+                role = "half" if e.name == self.fld["halfmove_clock"] else ("full" if e.name == self.fld["fullmove_number"] else None)
+                if role is None or e.args[0][0] in ("int", "bbconst"):
+                    continue
+                src = [x for x in p.events if x.kind == "call" and x.depth == 0 and x.idx < e.idx and x.name == "str::parse"
+                       and x.ret is not None and sym.contains(e.args[0], lambda y: y == x.ret)]
+                if src:
+                    out[(src[-1].fn, src[-1].bb)] = role
+        self._stage[key] = out
+        return out
+
     # ---- path analysis
     def ok_paths(self, name):
         b = self.f.need(name)
